@@ -88,9 +88,38 @@ func sumV(sel []item) int {
 // SubsetSum: FindDpSolvers / Best / BestAllowMinOverflow.
 func SubsetSum() {
 	n := vx.Param("n", 3)
-	its := symItems(n, 0, vx.Param("maxv", 6))
-	M := vx.Int("M")
-	vx.Assume(vx.And(M >= 0, M <= vx.Param("maxM", 8)))
+	var its []item
+	var M int
+	switch vx.Param("mode", 0) {
+	case 0:
+		its = symItems(n, 0, vx.Param("maxv", 6))
+		M = vx.Int("M")
+		vx.Assume(vx.And(M >= 0, M <= vx.Param("maxM", 8)))
+	case 1:
+		// more items, enumerated rather than symbolic: values from {1,2,4,8,16} (equal values give ties, distinct
+		// ones give pairwise different totals, so selections of 3 and more items are extended in several
+		// ways), limit 15 or 31
+		for i := 0; i < n; i++ {
+			its = append(its, item{i, 0, 1 << vx.Choose(5)})
+		}
+		M = []int{15, 31}[vx.Choose(2)]
+	case 2:
+		// more items, symbolic super-increasing values (each larger than the sum of the earlier ones, in an
+		// arbitrary position order chosen by rot): all 2^n totals are different, the limit is symbolic
+		vals := make([]int, n)
+		sum := 0
+		for i := range vals {
+			vals[i] = vx.Int("sv")
+			vx.Assume(vx.And(vals[i] > sum, vals[i] <= 1<<20))
+			sum += vals[i]
+		}
+		rot := vx.Choose(n)
+		for i := 0; i < n; i++ {
+			its = append(its, item{i, 0, vals[(i+rot)%n]})
+		}
+		M = vx.Int("M")
+		vx.Assume(vx.And(M >= 0, M <= 1<<24))
+	}
 	over := vx.Choose(2) == 1
 	var dp algz.DpSolvers[item]
 	if vx.Param("breaker", 0) == 1 {
